@@ -745,6 +745,27 @@ def step (st : DState) (line : String) : DState × Option String :=
                 else "S note trackA compiler model differs from the compiled automaton"
       (st, some ("compile done\n" ++ n1 ++ "\n" ++ n2))
     | none => (st, some "bad-op")
+  | ["compilefull", m] =>
+    -- track A: the model of `CompiledDfa::try_from_patterns` (mode automaton + one automaton and
+    -- polarity per lookahead) against the whole compiled mode of the dump
+    match m.toNat? with
+    | some m =>
+      let las := st.clapats.getD m []
+      let pol := st.lapols.getD m []
+      let cps : List CPat := (st.cpats.getD m []).map fun (t, a) =>
+        ⟨t, a, (las.lookup t).map fun l => ((pol.lookup t).getD true, l)⟩
+      let M := compileFull cps
+      let R := st.modes.getD m ⟨emptyDfa, []⟩
+      let sameDfa := M.dfa.trans == R.dfa.trans && M.dfa.ends == R.dfa.ends && M.dfa.prio == R.dfa.prio
+      let sameLas := M.las.length == R.las.length && M.las.all fun (t, L) =>
+        match R.las.lookup t with
+        | some L' => L.positive == L'.positive && L.dfa.trans == L'.dfa.trans && L.dfa.ends == L'.dfa.ends
+        | none => false
+      (st, some ("compile done\n" ++
+        (if sameDfa && sameLas then "S ok trackA: compileFull reproduces the compiled mode (automaton, lookahead automata, polarities)"
+         else if !sameDfa then "S note trackA compileFull differs from the compiled mode: automaton"
+         else "S note trackA compileFull differs from the compiled mode: lookaheads")))
+    | none => (st, some "bad-op")
   | ["compilecheckla", m, t] =>
     match m.toNat?, t.toNat? with
     | some m, some t =>
